@@ -29,6 +29,9 @@ Proved for every size / length / term list / parameter value:
 Partial (stated, with what is missing):
 * "converges as the step shrinks" is an analytic limit: proved is that each step is the first-order product formula of
   exactly the Hamiltonian's terms (Lie–Trotter consistency is cited); the limit is measured by step halving in the check.
+  [xt07 extension at the end of this file: for the four spin builders (Ising, Heisenberg, 2-D Ising, 2-D Heisenberg) the limit is
+  now a theorem — `product_formula_deriv`, `trotter_converges`, `…_step_consistent`, `…_trotter_converges`; it stays measured
+  only for the two Fermi–Hubbard builders.]
 * that the CNOT-ladder block of `lri_closed_form` equals `exp(-i α/2 P Z…Z P)`, compression, dense/sparse agreement and the
   `from_matrix` round trip are numeric (oracles of `harness/impl/C07.py`).
 -/
@@ -954,6 +957,7 @@ exponential over `Matrix n n ℂ`:
   `…_step_generators` theorems above: a permutation of the factors does not change the sum);
 * `ising_trotter_converges`, `heisenberg_trotter_converges`, `ising2d_trotter_converges`, `heisenberg2d_trotter_converges` —
   the circuit of `N` steps of size `T/N` is within `C·T²/N` of `exp(-iTH)` and converges to it;
+* `operator_order_consistent`, `operator_order_converges` — the same with the factors multiplied in operator order (last gate leftmost);
 * `circuit_mpo_same_hamiltonian`, `ising_circuit_mpo_same_hamiltonian`, `heisenberg_circuit_mpo_same_hamiltonian` — that `H` is
   entry by entry the path sum of the automaton `from_pauli_sum` builds for `MPO.ising` / `MPO.heisenberg` (`fsm_sum`), at the
   digits where `to_matrix` places it (`index_digits`).
@@ -1246,6 +1250,50 @@ end converges
 
 example := ising_trotter_converges 3 true 1 (1 / 2) (Or.inl (by decide)) (3 / 10)
 example := heisenberg2d_trotter_converges 2 3 1 2 3 (1 / 2) (3 / 10)
+
+/-! ### operator order
+
+`stepUnitary` multiplies the factors in list order (first gate = leftmost factor).  The matrix of a circuit as an operator has
+the LAST gate leftmost, i.e. it is `stepUnitary` of the reversed generator list.  Nothing above depends on the order: -/
+
+open scoped Matrix.Norms.Operator in
+/-- **C07 (operator order, consistency)** for every generator list, the product in operator order (last gate leftmost) is the
+    curve over the reversed list at `t = dt`, equals 1 at `dt = 0` and has the same derivative `Σ generators` there -/
+theorem operator_order_consistent (L : Nat) (gens : List (List Op × Rat)) :
+    (∀ dt : Rat, stepUnitary L ((gens.map (scaleGen dt)).reverse) = stepCurve L gens.reverse (dt : ℝ)) ∧
+    stepCurve L gens.reverse 0 = 1 ∧
+    HasDerivAt (stepCurve L gens.reverse) (genSum L gens) 0 := by
+  refine ⟨fun dt => by rw [← List.map_reverse, stepUnitary_scale], prodExp_zero _, ?_⟩
+  rw [← genSum_perm L (List.reverse_perm gens)]
+  exact hasDerivAt_prodExp _
+
+open scoped Matrix.Norms.L2Operator in
+/-- **C07 (operator order, convergence)** for every generator list `gens` (at `dt = 1`), `N` steps of size `T/N` multiplied in
+    operator order are within `T²s²e^{|T|s}/N` of `exp(T·Σ generators)` and converge to it; with `step_generators_scale` and the
+    `…_step_generators` theorems this is `…_trotter_converges` for the circuit's operator in qiskit's multiplication order -/
+theorem operator_order_converges (L : Nat) (gens : List (List Op × Rat)) (T : Rat) :
+    (∀ N : ℕ, 0 < N →
+      ‖stepUnitary L ((gens.map (scaleGen (T / N))).reverse) ^ N - exp ((T : ℝ) • genSum L gens)‖
+        ≤ (T : ℝ) ^ 2 * ((gens.map (genMat L)).map norm).sum ^ 2
+            * Real.exp (|(T : ℝ)| * ((gens.map (genMat L)).map norm).sum) / N) ∧
+    Tendsto (fun N : ℕ => stepUnitary L ((gens.map (scaleGen (T / N))).reverse) ^ N) atTop
+      (𝓝 (exp ((T : ℝ) • genSum L gens))) := by
+  have hsum : genSum L gens.reverse = genSum L gens := genSum_perm L (List.reverse_perm gens)
+  have hnorm : (((gens.reverse.map (genMat L)).map norm)).sum = ((gens.map (genMat L)).map norm).sum := by
+    rw [List.map_reverse, List.map_reverse, List.sum_reverse]
+  have hstep (N : ℕ) : stepUnitary L ((gens.map (scaleGen (T / N))).reverse)
+      = prodExp (gens.reverse.map (genMat L)) ((T : ℝ) / N) := by
+    rw [← List.map_reverse, stepUnitary_scale, Rat.cast_div, Rat.cast_natCast]
+    rfl
+  have hb := fun N hN => trotter_global_bound (gens.reverse.map (genMat L)) (genMat_mem_skew L gens.reverse) (T : ℝ) N hN
+  have ht := trotter_tendsto (gens.reverse.map (genMat L)) (genMat_mem_skew L gens.reverse) (T : ℝ)
+  have hs' : (gens.reverse.map (genMat L)).sum = genSum L gens := hsum
+  rw [hs'] at ht
+  refine ⟨fun N hN => ?_, ht.congr fun N => by rw [hstep N]⟩
+  have := hb N hN
+  rw [hs', hnorm] at this
+  rw [hstep N]
+  exact this
 
 /-! ## circuit and MPO builder of the same name describe the same Hamiltonian -/
 
